@@ -324,12 +324,14 @@ theorem driver_error_inside_send (evs : List Ev) (e : Ev) (evs₂ : List Ev) :
   have hlog : (stepT srcCfg s1 .linkError).log = s1.log :=
     shape_log_noTx (step_shape hc s1 .linkError) (by simp [NoTxEv])
   by_cases h : s1.log.length > s.log.length
-  · have h2 : s2 = stepT srcCfg s1 .linkError := by
+  · have hend : ∀ x, stepT srcCfg x .linkErrorEnd = x := by
+      intro x; simp [stepT, step, hc.errorEarly, forget_ff]
+    have h2 : s2 = stepT srcCfg s1 .linkError := by
       show stepReportingError srcCfg s e = _
-      unfold stepReportingError; exact if_pos h
+      unfold stepReportingError; rw [if_pos h, hend]
     refine ⟨by rw [h2, hlog], fun _ => ⟨h2, ?_, ?_, ?_⟩⟩
     · rw [h2]; simp [stepT, step, forget]
-    · rw [h2]; simp [stepT, step, forget, hc.errorClears]
+    · rw [h2]; simp [stepT, step, forget, hc.errorClears, hc.errorEarly]
     · intro tx htx hr
       have := no_cross_session_tx.2.2 (evs ++ [e]) .linkError evs₂ (Or.inr (Or.inl rfl)) tx
         (by rw [← hs1, ← h2]; exact htx) (by rw [← hs1]; exact hr)
@@ -337,6 +339,83 @@ theorem driver_error_inside_send (evs : List Ev) (e : Ev) (evs₂ : List Ev) :
   · refine ⟨?_, fun h' => absurd h' h⟩
     show (stepReportingError srcCfg s e).log = _
     unfold stepReportingError; exact congrArg State.log (if_neg h)
+
+/-! ### application callbacks that call back into the library
+
+`_link_error_cb` and `close_link` call the application (`connection_failed` / `disconnected` / `connection_lost` / …) in the
+middle; `open_link` starts the connection set-up.  Whatever the application does from inside such a callback - `open_link`,
+`send_packet`, `close_link`, … - is the event list between `linkError` and `linkErrorEnd` (`closeRest` … `closeEnd`, `openLink` …
+`openEnd`).  All theorems above quantify over all event lists and therefore cover these nested histories; what makes that true is
+the ORDER pinned by `src_repaired` (`closeEarly`, `errorEarly`, `openEarly`): everything is cancelled and forgotten before the
+callbacks run, so the steps after them do nothing. -/
+
+/-- after the application callbacks (the connection set-up) returned, `_link_error_cb` / `close_link` / `open_link` do nothing
+more to the retry mechanism -/
+theorem after_callbacks_nothing (s : State) (e : Ev) (he : e = .linkErrorEnd ∨ e = .closeEnd ∨ e = .openEnd) :
+    stepT srcCfg s e = s := by
+  have hc := src_repaired
+  rcases he with rfl | rfl | rfl
+  · simp [stepT, step, hc.errorEarly, forget_ff]
+  · simp [stepT, step, hc.closeEarly, forget_ff]
+  · simp [stepT, step, hc.openEarly, forget_ff]
+
+/-- Reconnect + request from inside a callback: after any history, a link error (or `close_link`) whose callback - after any
+nested steps - calls `open_link` on a link that needs resending and then sends a request with an expected reply: the request is
+transmitted at once and stays outstanding through the rest of the callback (`nested₂`), the return into `_link_error_cb` /
+`close_link` (`fin`) and every later quiet continuation. -/
+theorem retries_until_answered_reentrant (evs₁ nested₁ nested₂ evs₂ : List Ev) (teardown fin : Ev)
+    (hpair : (teardown = .linkError ∧ fin = .linkErrorEnd) ∨ (teardown = .closeRest ∧ fin = .closeEnd))
+    (pk : Pk) (ex : Pattern) (T : Nat) (hex : ex ≠ []) (hsz : pk.size ≤ Gen.C10.maxDataSize) :
+    let s := run srcCfg init (evs₁ ++ [teardown] ++ nested₁ ++ [.openLink true])
+    let s1 := stepT srcCfg s (.send pk ex T)
+    QuietRun srcCfg s1 (pk.header :: ex) nested₂ →
+    QuietRun srcCfg (run srcCfg s1 (nested₂ ++ [fin])) (pk.header :: ex) evs₂ →
+    (∃ tx, s1.log = tx :: s.log ∧ tx.pk = pk ∧ tx.time = s.now ∧ tx.retry = none) ∧
+    Outstanding (run srcCfg s1 (nested₂ ++ [fin] ++ evs₂)) s.nextReq pk (pk.header :: ex) T := by
+  intro s s1 hq2 hq3
+  have hc := src_repaired
+  have hl : s.link = some ⟨(run srcCfg init (evs₁ ++ [teardown] ++ nested₁)).nextSid, true⟩ := by
+    show (run srcCfg init (evs₁ ++ [teardown] ++ nested₁ ++ [.openLink true])).link = _
+    rw [run_append]
+    simp [run, stepT, step, forget]
+  have h := retries_until_answered (evs₁ ++ [teardown] ++ nested₁ ++ [.openLink true]) _ pk ex T (nested₂ ++ [fin] ++ evs₂)
+    hl rfl hex hsz
+  obtain ⟨⟨tx, h1, h2, _, h4, _, h6⟩, hout⟩ := h
+  refine ⟨⟨tx, h1, h2, h4, h6⟩, hout ?_⟩
+  have hfin : Quiet (run srcCfg s1 nested₂) (pk.header :: ex) fin := by
+    rcases hpair with ⟨_, rfl⟩ | ⟨_, rfl⟩ <;> trivial
+  exact (quietRun_append srcCfg s1 _ (nested₂ ++ [fin]) evs₂).mpr
+    ⟨(quietRun_append srcCfg s1 _ nested₂ [fin]).mpr ⟨hq2, hfin, trivial⟩, hq3⟩
+
+/-- ... and nothing of the old session survives such a callback: no request made before the link error / `close_link` is
+transmitted during the nested history, after the return, or later. -/
+theorem no_cross_session_tx_reentrant (evs₁ nested evs₂ : List Ev) (teardown fin : Ev)
+    (ht : teardown = .linkError ∨ teardown = .closeRest) :
+    let s := run srcCfg init evs₁
+    ∀ tx ∈ (run srcCfg init (evs₁ ++ [teardown] ++ nested ++ [fin] ++ evs₂)).log, tx.req < s.nextReq → tx ∈ s.log := by
+  intro s tx htx hr
+  have he : teardown = .closeRest ∨ teardown = .linkError ∨ ∃ nr, teardown = .openLink nr := by
+    rcases ht with h | h
+    · exact Or.inr (Or.inl h)
+    · exact Or.inl h
+  have := no_cross_session_tx.2.2 evs₁ teardown (nested ++ [fin] ++ evs₂) he tx
+    (by
+      have e : evs₁ ++ [teardown] ++ nested ++ [fin] ++ evs₂ = evs₁ ++ (teardown :: (nested ++ [fin] ++ evs₂)) := by simp
+      rw [e, run_append, run_cons] at htx
+      exact htx) hr
+  exact this
+
+/-- The order is essential: with the cancelling of `_link_error_cb` moved behind the callbacks, the request sent on the link
+that `connection_lost` re-opened loses its retry timer when the callback returns, although its link stays open. -/
+theorem late_forget_counterexample : ¬ RetriesUntilAnswered lateErrorCfg := by
+  intro h
+  have h1 := (h [.openLink true, .send ⟨1, 93, 2⟩ [3, 7] 200, .linkError, .openLink true] ⟨1, true⟩ ⟨2, 93, 2⟩ [3, 8] 200
+    [.linkErrorEnd] (by decide) rfl (by decide) (by decide)).2 ⟨trivial, trivial⟩
+  obtain ⟨j, t, l, last, _, hent, _⟩ := h1
+  have hp : (run lateErrorCfg (stepT lateErrorCfg (run lateErrorCfg init [.openLink true, .send ⟨1, 93, 2⟩ [3, 7] 200,
+      .linkError, .openLink true]) (.send ⟨2, 93, 2⟩ [3, 8] 200)) [.linkErrorEnd]).patterns = [] := by decide
+  rw [hp] at hent
+  simp [dget] at hent
 
 /-- If every link that is ever opened guarantees delivery, no retry timer is ever created. -/
 theorem reliable_links_no_timers (evs : List Ev) (h : ∀ e ∈ evs, ReliableOnly e) :
